@@ -126,6 +126,10 @@ def run(repo, chk):
     # ---- R05.2
     from .shared import refused_exit_obligations
     refused_exit_obligations(repo, chk, "R05.2")
+    from .shared import push_under_lock_obligations
+    push_under_lock_obligations(repo, chk, "R05.2", "two probes activated at the same time on one function both end up in the installed variant (a stale variant built outside the lock is not installed over a newer one)")
+    from .shared import count_integrity_obligations
+    count_integrity_obligations(repo, chk, "R05.2", "every probe that is still active keeps its variables instrumented whatever the others do")
     for acq_q, rel_q, why in PAIRS:
         a, r = repo.func(acq_q), repo.func(rel_q)
         wanted, loops = {}, {}
